@@ -83,6 +83,32 @@ class C03(Check):
             call["id"] = rng.choice(["x", "x", "y", ""])      # providers may re-use or omit call ids
         return call
 
+    def exhaustive_cases(self):
+        """One LLM turn with several tool calls: every order of a disallowed and an allowed call, with every pattern of
+        call ids (equal, different, empty, absent), for several allowed sets - and the same spread over two turns."""
+        import itertools
+        out = []
+        regs = [{"op": "reg", "name": "wipe", "caps": [3], "tags": [], "behaviour": "const", "attr": "required_capabilities", "via": "object"},
+                {"op": "reg", "name": "look", "caps": [], "tags": [], "behaviour": "nargs", "attr": "required_capabilities", "via": "simple"},
+                {"op": "reg", "name": "send", "caps": [1], "tags": [], "behaviour": "const", "attr": "capabilities", "via": "object"}]
+        idpats = [("x", "x", "x"), ("x", "y", "z"), ("", "", ""), (None, None, None), ("x", "x", None), (None, "x", "x")]
+        for allowed in ([], [1], [3], None):
+            for names in itertools.permutations(["wipe", "look", "send"], 2):
+                for ids in idpats:
+                    calls = []
+                    for nm, i in zip(names, ids):
+                        c = {"name": nm, "args": {}}
+                        if i is not None:
+                            c["id"] = i
+                        calls.append(c)
+                    for rounds in ([calls], [[calls[0]], [calls[1]]], [calls, calls]):
+                        out.append({"allowed": allowed, "ops": regs + [{"op": "loop", "max_iter": 3, "rounds": rounds}]})
+            for names in itertools.permutations(["wipe", "look", "send"], 3):
+                for ids in idpats[:3]:
+                    calls = [dict({"name": nm, "args": {}}, **({"id": i} if i is not None else {})) for nm, i in zip(names, ids)]
+                    out.append({"allowed": allowed, "ops": regs + [{"op": "loop", "max_iter": 2, "rounds": [calls]}]})
+        return out
+
     def gen_cases(self, rng, n):
         out = []
         for _ in range(n):
